@@ -21,6 +21,7 @@ func init() {
 			ruleTypeSwitchExhaustive(r, enginePkg, "", "buildStage", logqlPkg, "PipelineStage", 13, false)
 			ruleTypeSwitchExhaustive(r, enginePkg, "", "buildLabelPredicate", logqlPkg, "LabelPredicate", 7, false)
 			ruleNilNil(r, []string{enginePkg}, map[string]string{})
+			ruleLineFilterBuilder(r)
 		},
 	})
 }
